@@ -75,21 +75,22 @@ type GOpt struct {
 
 // GNode is one node of a layered graph.
 type GNode struct {
-	UID     int        `json:"uid"`
-	Key     int        `json:"key"`
-	Kind    string     `json:"kind"` // lambda | pass | sub | tools
-	Natives int        `json:"natives,omitempty"`
-	Fails   bool       `json:"fails,omitempty"`
-	Intr    int        `json:"intr,omitempty"`   // lambda: the first Intr executions return compose.InterruptAndRerun
-	SelfCB  bool       `json:"selfcb,omitempty"` // the lambda fires its callbacks itself (WithLambdaCallbackEnable)
-	DelayUs int        `json:"delay,omitempty"`
-	Chunks  int        `json:"chunks,omitempty"`
-	Shared  int        `json:"shared,omitempty"` // >0: nodes with the same value are the same *Lambda object
-	SubDag  bool       `json:"subdag,omitempty"`
-	Stages  [][]*GNode `json:"stages,omitempty"`
-	Typed   string     `json:"typed,omitempty"` // sub: "tools" = conversion lambda, ToolsNode, conversion lambda
-	Conv    bool       `json:"conv,omitempty"`  // lambda: a conversion lambda of a tools sub graph
-	Calls   []*GCall   `json:"calls,omitempty"` // tools: the tool calls of the message
+	UID      int        `json:"uid"`
+	Key      int        `json:"key"`
+	Kind     string     `json:"kind"` // lambda | pass | sub | tools
+	Natives  int        `json:"natives,omitempty"`
+	Fails    bool       `json:"fails,omitempty"`
+	Intr     int        `json:"intr,omitempty"`   // lambda: the first Intr executions return compose.InterruptAndRerun
+	SelfCB   bool       `json:"selfcb,omitempty"` // the lambda fires its callbacks itself (WithLambdaCallbackEnable)
+	DelayUs  int        `json:"delay,omitempty"`
+	Chunks   int        `json:"chunks,omitempty"`
+	Shared   int        `json:"shared,omitempty"` // >0: nodes with the same value are the same *Lambda object
+	SubDag   bool       `json:"subdag,omitempty"`
+	Stages   [][]*GNode `json:"stages,omitempty"`
+	Typed    string     `json:"typed,omitempty"`    // sub: "tools" = conversion lambda, ToolsNode, conversion lambda
+	Conv     bool       `json:"conv,omitempty"`     // lambda: a conversion lambda of a tools sub graph
+	Calls    []*GCall   `json:"calls,omitempty"`    // tools: the tool calls of the message
+	ToolList bool       `json:"toollist,omitempty"` // tools: configured with a placeholder, the real tool list is a call option (compose.WithToolList)
 }
 
 type Case struct {
@@ -98,7 +99,8 @@ type Case struct {
 	GlobalsVia string  `json:"globals_via,omitempty"` // init | append
 	Handlers   []HSpec `json:"handlers"`
 	// script
-	Ops []SOp `json:"ops,omitempty"`
+	Ops      []SOp `json:"ops,omitempty"`
+	OptSpare int   `json:"opt_spare,omitempty"` // spare capacity of the handler slices the caller passes to WithCallbacks; equal lists are one slice
 	// graph
 	Opts     []GOpt     `json:"opts,omitempty"`
 	Opts2    []GOpt     `json:"opts2,omitempty"`     // the call options of the runs that resume an interrupted run (when HasOpts2)
